@@ -179,3 +179,47 @@ def make_hubbard(rng, adj, u, nelec, trial_kind="uhf_cpmc", prop_kind="cpmc", dt
     prop_data = prop.init_prop_data(trial, wave_data, ham_data, init_walkers)
     prop_data["key"] = jr.PRNGKey(seed)
     return dict(ham=ham, ham_data=ham_data, trial=trial, wave_data=wave_data, prop=prop, prop_data=prop_data, adj=adj, u=u)
+
+
+def converge_independent(S, iters=600):
+    """SCF-converge the trial of a system with a plain Roothaan solver that shares no code with the library
+    (so that a defect in trial.optimize cannot make a trial look converged); rebuilds intermediates and prop_data"""
+    import jax.numpy as jnp
+    trial, ham, prop = S["trial"], S["ham"], S["prop"]
+    norb = ham.norb
+    ne = trial.nelec
+    h1 = np.array(S["ham_data"]["h1"])
+    L = np.array(S["ham_data"]["chol"]).reshape(-1, norb, norb)
+    restricted_trial = type(trial).__name__ == "rhf"
+    if restricted_trial:
+        h1 = np.array([(h1[0] + h1[1]) / 2] * 2)
+    eig = [np.linalg.eigh(h1[s])[1] for s in (0, 1)]
+    dm = [eig[s][:, :ne[s]] @ eig[s][:, :ne[s]].T for s in (0, 1)]
+    cs = None
+    for it in range(iters):
+        D = dm[0] + dm[1]
+        J = sum(np.sum(l * D) * l for l in L)
+        new, cs = [], []
+        for s in (0, 1):
+            Kx = sum(l @ dm[s] @ l for l in L)
+            w, v = np.linalg.eigh(h1[s] + J - Kx)
+            cs.append(v[:, :ne[s]])
+            new.append(cs[-1] @ cs[-1].T)
+        delta = max(np.abs(new[s] - dm[s]).max() for s in (0, 1))
+        # plain (undamped) Roothaan steps: a limit of this iteration is a STABLE fixed point of the very map the library
+        # iterates, so the library must leave it unchanged; problems on which it does not settle are skipped by the caller
+        dm = new
+        if delta < 1e-13:
+            break
+    wd = dict(S["wave_data"])
+    wd["mo_coeff"] = jnp.array(cs[0]) if restricted_trial else [jnp.array(cs[0]), jnp.array(cs[1])]
+    wd["rdm1"] = jnp.array([cs[0] @ cs[0].T, cs[1] @ cs[1].T])
+    key = S["prop_data"]["key"]
+    hd = {k: S["ham_data"][k] for k in ("h0", "h1", "chol", "ene0") if k in S["ham_data"]}
+    hd = ham.build_measurement_intermediates(hd, trial, wd)
+    hd = ham.build_propagation_intermediates(hd, prop, trial, wd)
+    pd = prop.init_prop_data(trial, wd, hd)
+    pd["key"] = key
+    out = dict(S)
+    out.update(ham_data=hd, wave_data=wd, prop_data=pd, scf_residual=float(delta))
+    return out
